@@ -735,7 +735,8 @@ def run_case(case, stats, tolerate=True, beyond=True):
             base_classes.append('with-permissions')
         stats.notes['cases'] += 1
         stats.notes['ops-total'] += len(r.ops)
-        stats.extra['max_ops_per_store'] = max(stats.extra.get('max_ops_per_store', 0), len(r.ops))
+        stats.extra['max_ops_per_store_by_shard'] = [max((stats.extra.get('max_ops_per_store_by_shard') or [0])[0],
+                                                         len(r.ops))]
         for c in set(base_classes):
             stats.classes['case/' + c] += 1
         n = 0
